@@ -52,6 +52,20 @@ def parseGenesis : List String → List (Addr × Int) × List (Addr × Int)
   | _ :: rest => parseGenesis rest
   | [] => ([], [])
 
+/-- exported signing infos: `si <addr> <start> <offset> <missed> <jailedUntil ns, -1 = for ever> <tombstoned 0|1>` -/
+def parseSigning : List String → List (Addr × Sign)
+  | "si" :: a :: st :: off :: ms :: ju :: tb :: rest =>
+    (a, { start := (st.toInt?).getD 0, offset := (off.toInt?).getD 0, missed := (ms.toInt?).getD 0,
+          jailedUntil := (ju.toInt?).getD 0, tomb := tb == "1" }) :: parseSigning rest
+  | _ :: rest => parseSigning rest
+  | [] => []
+
+/-- exported missed-block entries: `mb <addr> <index> <0|1>` -/
+def parseMissed : List String → List ((Addr × Int) × Bool)
+  | "mb" :: a :: i :: b :: rest => ((a, (i.toInt?).getD 0), b == "1") :: parseMissed rest
+  | _ :: rest => parseMissed rest
+  | [] => []
+
 def initState (toks : List String) (mods keys : List String) : State × List (Addr × Int) :=
   let (accs, vals) := parseGenesis toks
   let i := intOf toks
@@ -64,7 +78,8 @@ def initState (toks : List String) (mods keys : List String) : State × List (Ad
   genesis { accs := accs, vals := vals, p := p, daoTokens := i "daot", daoOwner := kvOf toks "daoo", aclOwner := kvOf toks "aclo",
             paramNames := allParamNames, pool := mods.getD 0 "", feeAcc := mods.getD 1 "", posAcc := mods.getD 2 "",
             daoAcc := mods.getD 3 "", keys := (List.range keys.length).zip keys, nStored := (if kvOf toks "stored" == "" then keys.length else (intOf toks "stored").toNat),
-            defaultMaxVals := Posmint.Generated.defaultMaxValidators }
+            defaultMaxVals := Posmint.Generated.defaultMaxValidators,
+            signing := parseSigning toks, missed := parseMissed toks }
 
 def parseVotes (s : String) : List Vote :=
   if s == "-" || s == "" then [] else
